@@ -357,6 +357,42 @@ Section MatrixLevel.
     unfold res_bp in H; ro. lra.
   Qed.
 
+  (* certificate (ii): the residual of the captured local equations is linear in the field,
+     too (LA = local matrix, nd = gradient components per sub-cell; the right-hand side
+     matrices sit in the FL / BF slots of I) *)
+  Lemma gstar_decomp b ax ay az nd col :
+    gstar R (b, (ax, ay, az)) nd col =
+    b * gstar R re0 nd col + ax * gstar R re1 nd col + ay * gstar R re2 nd col
+    + az * gstar R re3 nd col.
+  Proof.
+    unfold gstar, comp3, e0, e1, e2, e3; cbn [fst snd].
+    destruct (col mod nd)%nat as [|[|k]]; ro; ring.
+  Qed.
+
+  Lemma res_local_decomp (LA : coo R) nd b ax ay az r :
+    res_local R RO I LA nd (b, (ax, ay, az)) r =
+    b * res_local R RO I LA nd re0 r + ax * res_local R RO I LA nd re1 r
+    + ay * res_local R RO I LA nd re2 r + az * res_local R RO I LA nd re3 r.
+  Proof.
+    unfold res_local. ro.
+    rewrite (row_apply_ext LA r _ _ (fun col => gstar_decomp b ax ay az nd col)).
+    rewrite row_apply_lin4, flux_of_decomp. ring.
+  Qed.
+
+  Lemma local_rows_linear_extension :
+    forall (LA : coo R) (nd r : nat) (t0 t1 t2 t3 : R),
+      Rabs (res_local R RO I LA nd re0 r) <= t0 -> Rabs (res_local R RO I LA nd re1 r) <= t1 ->
+      Rabs (res_local R RO I LA nd re2 r) <= t2 -> Rabs (res_local R RO I LA nd re3 r) <= t3 ->
+      forall b ax ay az : R,
+        Rabs (rrow_apply LA r (gstar R (b, (ax, ay, az)) nd) - rflux_of I (b, (ax, ay, az)) r)
+        <= Rabs b * t0 + Rabs ax * t1 + Rabs ay * t2 + Rabs az * t3.
+  Proof.
+    intros LA nd r t0 t1 t2 t3 H0 H1 H2 H3 b ax ay az.
+    change (rrow_apply LA r (gstar R (b, (ax, ay, az)) nd) - rflux_of I (b, (ax, ay, az)) r)
+      with (res_local R RO I LA nd (b, (ax, ay, az)) r).
+    rewrite res_local_decomp. apply comb_bound; assumption.
+  Qed.
+
   (* constant pressure: zero flux (up to the band of the constant basis field) *)
   Lemma constant_zero_matrix :
     forall (f : nat) (t0 : R),
